@@ -22,4 +22,12 @@ def authOracles (badSig : List Bytes) : Oracles Provider :=
     add := padd,
     allowedBy := fun e p => allowedFresh e p == .ok }
 
+/-- the same oracles with the signature verdict given per EVENT (room versions 1 and 2: two different
+    events can share an event ID, so a list of failing IDs cannot say which of them fails) -/
+def authOraclesBy (bad : Event → Bool) : Oracles Provider :=
+  { sigOk := fun e => !bad e,
+    empty := pempty,
+    add := padd,
+    allowedBy := fun e p => allowedFresh e p == .ok }
+
 end V.FedCheck
